@@ -64,7 +64,12 @@ def _proc_yaml(p, lim_quota):
     s = "  %s:\n" % k
     if kind == "Cond":
         s += "    processor: Filter\n    parameters:\n      - key: header\n        value: \"x-%s=1\"\n" % k.lower()
+    elif kind == "Plain" and p.get("impl") == "transform":
+        # an unconditional processor that reports the *current* stream type (like HARCollector, WriteCache, traces ...)
+        s += ("    processor: TransformAPICall\n    parameters:\n      - key: set\n        value:\n"
+              "          \"$.request.headers.x-t-%s\": \"1\"\n" % k.lower())
     elif kind == "Plain":
+        # reports StreamTypeAny
         s += "    processor: UserDefinedMetrics\n    parameters:\n      - key: metric_name\n        value: \"m_%s\"\n" % k
     elif kind == "Gen":
         s += "    processor: GenerateResponse\n    parameters:\n      - key: status\n        value: 418\n"
@@ -193,6 +198,16 @@ def standard_txs(cfg, max_inputs=16):
                 t["pair"] = pair
                 txs.append(t)
     return txs
+
+
+def vary_impl(cfg, rng):
+    """which registry processor stands for an unconditional (Plain) processor - outside the abstract configuration,
+    part of the rendering: UserDefinedMetrics reports StreamTypeAny, TransformAPICall the current stream type"""
+    for fl in cfg["flows"]:
+        for p in fl["procs"]:
+            if p["kind"] == "Plain" and "impl" not in p:
+                p["impl"] = rng.choice(["metrics", "transform"])
+    return cfg
 
 
 def make_case(cid, cfg, txs=None):
@@ -411,6 +426,51 @@ def handcrafted():
     out["response-side-cycle-behind-gen"] = {"flows": [flow("A", [("g", "Gen"), ("p", "Plain"), ("q", "Plain"), ("r", "Plain")],
         [conn(S("start"), P("q")), conn(P("q"), P("g"))],
         [conn(S("start"), P("r")), conn(P("r"), S("end")), conn(P("g"), P("p")), conn(P("p"), P("q")), conn(P("q"), P("p"))])], "quotas": []}
+    same = [{"id": "qa", "kind": "conc", "url": TXURL}, {"id": "qb", "kind": "conc", "url": TXURL}, {"id": "qw", "kind": "conc", "url": HOST + "/*"}]
+    out["sysflows-same-filter-early"] = {"flows": [flow("A", [("a", "Cond"), ("g", "Gen"), ("p", "Plain"), ("q", "Plain")],
+        [conn(S("start"), P("a")), conn(P("a", "hit"), P("g")), conn(P("a", "miss"), S("end"))],
+        [conn(S("start"), P("p")), conn(P("p"), S("end")), conn(P("g"), P("q")), conn(P("q"), P("p"))])], "quotas": same}
+    # the response walk behind an answering processor: chains of every kind of processor
+    out["answer-chain"] = {"flows": [flow("A", [("a", "Cond"), ("g", "Gen"), ("b", "Cond"), ("p", "Plain"), ("q", "Plain"), ("h", "Gen")],
+        [conn(S("start"), P("a")), conn(P("a", "hit"), P("g")), conn(P("a", "miss"), S("end"))],
+        [conn(P("g"), P("p")), conn(P("p"), P("b")), conn(P("b", "hit"), P("h")), conn(P("b", "miss"), P("q")), conn(P("h"), P("q")),
+         conn(P("q"), S("end"))])], "quotas": []}
+    for k, v in list(out.items()):
+        if k in ("answer-chain", "sysflows-same-filter-early", "fanout-two-gens", "prefix-suffix-flows"):
+            w = json.loads(json.dumps(v))
+            for fl in w["flows"]:
+                for p in fl["procs"]:
+                    if p["kind"] == "Plain":
+                        p["impl"] = "transform"
+            out[k + "-current-type"] = w
+    # flow references: conditional / unconditional, both sides, a library flow used twice and by two flows
+    lib = flow("L", [("u", "Cond"), ("v", "Plain")],
+               [conn(S("start"), P("u")), conn(P("u", "hit"), P("v")), conn(P("u", "miss"), S("end")), conn(P("v"), S("end"))],
+               [conn(S("start"), P("v")), conn(P("v"), S("end"))], url=HOST + "/y")
+    out["ref-conditional-into-flow"] = {"flows": [
+        flow("A", [("a", "Cond"), ("p", "Plain")],
+             [conn(S("start"), P("a")), conn(P("a", "miss"), F("L", "start")), conn(P("a", "hit"), P("p")), conn(P("p"), S("end"))],
+             [conn(S("start"), P("a")), conn(P("a", "hit"), F("L", "start")), conn(P("a", "miss"), S("end"))]), lib], "quotas": []}
+    out["ref-library-used-by-two-flows"] = {"flows": [
+        flow("A", [("a", "Cond"), ("p", "Plain")],
+             [conn(F("L", "end"), P("a")), conn(P("a", "hit"), P("p")), conn(P("a", "miss"), S("end")), conn(P("p"), S("end"))],
+             [conn(S("start"), P("p")), conn(P("p"), F("L", "start"))]),
+        flow("C", [("c", "Cond"), ("r", "Plain")],
+             [conn(S("start"), P("c")), conn(P("c", "hit"), F("L", "start")), conn(P("c", "miss"), P("r")), conn(P("r"), S("end"))],
+             [conn(F("L", "end"), P("r")), conn(P("r"), S("end"))], url=HOST + "/z"), lib], "quotas": []}
+    for d in ("req", "res"):
+        triv = [conn(S("start"), P("p")), conn(P("p"), S("end"))]
+        loop = [conn(F("L", "end"), P("p")), conn(P("p"), F("L", "start"))]
+        loop2 = [conn(F("L", "end"), P("a")), conn(P("a", "hit"), P("p")), conn(P("a", "miss"), S("end")), conn(P("p"), F("L", "start"))]
+        for nm, l in (("loop", loop), ("cond-loop", loop2)):
+            out["ref-%s-through-library-%s" % (nm, d)] = {"flows": [
+                flow("A", [("a", "Cond"), ("p", "Plain")], l if d == "req" else triv, l if d == "res" else triv), lib], "quotas": []}
+        out["ref-loop-through-library-second-flow-%s" % d] = {"flows": [
+            flow("A", [("a", "Cond"), ("p", "Plain")], triv, triv),
+            flow("C", [("c", "Cond"), ("r", "Plain")],
+                 [conn(F("L", "end"), P("r")), conn(P("r"), F("L", "start"))] if d == "req" else [conn(S("start"), P("r")), conn(P("r"), S("end"))],
+                 [conn(F("L", "end"), P("r")), conn(P("r"), F("L", "start"))] if d == "res" else [conn(S("start"), P("r")), conn(P("r"), S("end"))],
+                 url=HOST + "/z"), lib], "quotas": []}
     out["self-reference"] = {"flows": [flow("A", [("p", "Plain")], [conn(S("start"), P("p")), conn(P("p"), F("A", "start"))],
         [conn(S("start"), S("end"))])], "quotas": []}
     return out
@@ -483,6 +543,24 @@ QUOTA_FILES = {
 }
 
 
+def _hier_files():
+    """internal-limit hierarchies three and four levels deep, in every declaration order"""
+    import itertools
+    head = "quotas:\n  - id: plan\n    filter:\n      url: h.test/*\n    strategy:\n      fixed_window:\n        max: 100\n        interval: 1\n        interval_unit: minute\ninternal_limits:\n"
+
+    def il(i, parent, pct, hdr):
+        return ("  - id: %s\n    parent_id: %s\n    filter:\n      url: h.test/x\n      headers:\n        - key: x-%s\n          value: \"1\"\n"
+                "    strategy:\n      allocation_percentage: %d\n" % (i, parent, hdr, pct))
+    shapes = {"chain": [("team", "plan", 60), ("service", "team", 50), ("unit", "service", 50)],
+              "tree": [("team", "plan", 60), ("service", "team", 50), ("other", "plan", 40)],
+              "chain3": [("team", "plan", 60), ("service", "team", 50)]}
+    out = {}
+    for sh, items in shapes.items():
+        for perm in itertools.permutations(range(len(items))):
+            out["hier-%s-%s" % (sh, "".join(map(str, perm)))] = (head + "".join(il(items[j][0], items[j][1], items[j][2], items[j][0]) for j in perm), None)
+    return out
+
+
 def quota_cases(rng):
     """quota files (valid and invalid) next to a small valid flow; the abstract configuration does not describe them
     (nomodel): only the loader claims of C05 apply"""
@@ -490,7 +568,9 @@ def quota_cases(rng):
                            [conn(S("start"), P("a")), conn(P("a", "hit"), P("g")), conn(P("a", "miss"), S("end"))],
                            [conn(S("start"), P("p")), conn(P("p"), S("end")), conn(P("g"), P("p"))])], "quotas": []}
     cases = []
-    for name, (f1, f2) in sorted(QUOTA_FILES.items()):
+    files = dict(QUOTA_FILES)
+    files.update(_hier_files())
+    for name, (f1, f2) in sorted(files.items()):
         c = make_case("quota-" + name, base)
         c["nomodel"] = True
         if f1 is None:
@@ -671,13 +751,13 @@ def run_property(ctx, prop):
     gen = res[1]
     acc = [g for g in gen if g["accepts"] == "accepted"]
     oth = [g for g in gen if g["accepts"] != "accepted"]
-    na, no = (700, 500) if not T else (9000, 4000)
+    na, no = (1600, 350) if not T else (9000, 4000)
     ctx.rng.shuffle(acc)
     ctx.rng.shuffle(oth)
     sel = acc[:na] + oth[:no]
     ctx.cov["exhaustive"] = len(sel) == len(gen)
     ctx.log("configuration space %s: %d configurations (%d accepted by the model); replaying %d" % (tier, len(gen), len(acc), len(sel)))
-    cases = [make_case("g%d" % i, g["cfg"]) for i, g in enumerate(sel)]
+    cases = [make_case("g%d" % i, vary_impl(g["cfg"], ctx.rng)) for i, g in enumerate(sel)]
     lines, refs, bad = exercise(ctx, prop, binary, cases, "gen", reported)
     account(lines, refs, bad)
     k = next((i for i, l in enumerate(lines) if nontrivial_c04(l)), None)
@@ -687,9 +767,10 @@ def run_property(ctx, prop):
                     "executed": [[s["key"], s["dir"], s["out"]] for s in lines[k]["seq"]]})
 
     # (3) code -> spec: seeded random configurations beyond the enumerated space + hand-written ones
-    nr = 600 if not T else 4000
+    nr = 450 if not T else 4000
     rcases = [make_case("h-" + k, v) for k, v in sorted(handcrafted().items())]
-    rcases += [make_case("r%d" % i, random_config(ctx.rng, True)) for i in range(nr)]
+    rcases += [make_case("h2-" + k, vary_impl(json.loads(json.dumps(v)), ctx.rng)) for k, v in sorted(handcrafted().items())]
+    rcases += [make_case("r%d" % i, vary_impl(random_config(ctx.rng, True), ctx.rng)) for i in range(nr)]
     if prop == "C05":
         for c in rcases[:: (6 if not T else 4)]:
             c["txs"] = c["txs"] + malformed_txs(ctx.rng, 6 if not T else 12)
